@@ -1556,7 +1556,9 @@ Notes:
     import mystic.symbolic as ms #XXX: randomness due to sympy?
     cons = ms.symbolic_bounds(min, max) #XXX: how clipping with symbolic?
     if not cons.strip(): return lambda x: x #NOTE: no bounds were given
-    cons = ms.generate_constraint(ms.generate_solvers(ms.simplify(cons))) #join?
+    import random #NOTE: don't draw the test points from the global stream
+    cons = ms.simplify(cons, rand=random.Random(0).random)
+    cons = ms.generate_constraint(ms.generate_solvers(cons)) #join?
     return cons
 
 
